@@ -69,6 +69,8 @@ func rt_22(c *core.Ctx, p *core.Prog) {
 		}
 	}
 	E := map[int64]tokSet{}
+	Efn := map[*ssa.Function]map[int64]tokSet{}
+	EfnAt := map[*ssa.Function]map[int64]token.Pos{}
 	for _, fn := range sortedFuncs(p, encReach) {
 		if !encPkg(core.FnPkgPath(fn)) {
 			continue
@@ -104,12 +106,26 @@ func rt_22(c *core.Ctx, p *core.Prog) {
 			if E[k] == nil {
 				E[k] = tokSet{}
 			}
+			top := fn
+			for top.Parent() != nil {
+				top = top.Parent()
+			}
+			if Efn[top] == nil {
+				Efn[top] = map[int64]tokSet{}
+				EfnAt[top] = map[int64]token.Pos{}
+			}
+			if Efn[top][k] == nil {
+				Efn[top][k] = tokSet{}
+				EfnAt[top][k] = i.Pos()
+			}
 			for _, cn := range e.tokens(recv).with("col:") {
 				E[k][cn] = true
+				Efn[top][k][cn] = true
 			}
 		})
 	}
 	n := 0
+	Dall := map[int64]tokSet{}
 	seenOrigin := map[*ssa.Function]bool{}
 	for _, fn := range sortedFuncs(p, decReach) {
 		if !strings.Contains(core.FnPkgPath(fn), "/otlp") {
@@ -159,6 +175,10 @@ func rt_22(c *core.Ctx, p *core.Prog) {
 		}
 		sort.Slice(ks, func(i, j int) bool { return ks[i] < ks[j] })
 		for _, k := range ks {
+			if Dall[k] == nil {
+				Dall[k] = tokSet{}
+			}
+			Dall[k].addAll(D[k])
 			if len(D[k]) == 0 || len(E[k]) == 0 {
 				continue
 			}
@@ -174,11 +194,39 @@ func rt_22(c *core.Ctx, p *core.Prog) {
 				fmt.Sprintf("the decoder's arm for %s reads column(s) %v but the encoders' arms for %s write the value into %v: values of that type are restored from a column that holds another variant (null for this row)", names[k], keys(D[k]), names[k], keys(E[k])))
 		}
 	}
+	// the other direction: every encoder's arm writes a column that some decoder's arm for that type reads
+	var tops []*ssa.Function
+	for f := range Efn {
+		tops = append(tops, f)
+	}
+	sort.Slice(tops, func(i, j int) bool { return core.FuncName(tops[i]) < core.FuncName(tops[j]) })
+	for _, f := range tops {
+		var ks []int64
+		for k := range Efn[f] {
+			ks = append(ks, k)
+		}
+		sort.Slice(ks, func(i, j int) bool { return ks[i] < ks[j] })
+		for _, k := range ks {
+			if len(Efn[f][k]) == 0 || len(Dall[k]) == 0 {
+				continue
+			}
+			n++
+			common := false
+			for cn := range Efn[f][k] {
+				if Dall[k][cn] {
+					common = true
+				}
+			}
+			c.Check(common, fmt.Sprintf("enc=%s|type=%s", core.FuncName(f), names[k]), p.Pos(EfnAt[f][k]), core.FuncName(f),
+				fmt.Sprintf("the %s arm writes column(s) %v, which the decoders' %s arms read (%v)", names[k], keys(Efn[f][k]), names[k], keys(Dall[k])),
+				fmt.Sprintf("the encoder's arm for %s writes the value into column(s) %v but the decoders' arms for %s read %v: the value is never read back", names[k], keys(Efn[f][k]), names[k], keys(Dall[k])))
+		}
+	}
 	c.Stats["RT.22 decoder arms"] = n
 }
 
 func init() {
 	for _, prop := range []string{"C01", "C02", "C03"} {
-		register(prop, &core.Rule{ID: "RT.22", Title: "one-of value arms: the decoder's arm for a value type reads the column the encoders' arm for that type writes", Mod: core.ModRoot, Floor: 7, FloorBy: map[string]int{"C01": 6, "C02": 12, "C03": 6}, Run: rt_22})
+		register(prop, &core.Rule{ID: "RT.22", Title: "one-of value arms: the decoder's arm for a value type reads the column the encoders' arm for that type writes", Mod: core.ModRoot, Floor: 7, FloorBy: map[string]int{"C01": 15, "C02": 20, "C03": 15}, Run: rt_22})
 	}
 }
